@@ -1754,7 +1754,14 @@ class HasRounds(GenericHandler):
         assert isinstance(vary_rounds, int)
         lower = linear_to_native(default_rounds - vary_rounds, False)
         upper = linear_to_native(default_rounds + vary_rounds, True)
-        return cls._clip_to_desired_rounds(lower), cls._clip_to_desired_rounds(upper)
+        lower = cls._clip_to_desired_rounds(lower)
+        upper = cls._clip_to_desired_rounds(upper)
+        # NOTE: desired window may be unset / wider than the variation,
+        #       but the hash's hard limits always apply.
+        lower = max(lower, cls.min_rounds)
+        if cls.max_rounds is not None:
+            upper = min(upper, cls.max_rounds)
+        return lower, upper
 
     def __init__(self, rounds=None, **kwds):
         super().__init__(**kwds)
